@@ -479,13 +479,22 @@ package bkl
 //@     assert (noMarker obj2)                                                                             [C07] [C14]
 //@ func process2Decode(obj, mergeFrom, mergeFromDocs, ec, v, depth) (res, err)
 //@   decreases (- 1002 depth) 5
+//@   ensures (=> (not ((_ is VStr) v)) (= err ErrInvalidType))                                             [C14]
 //@ func process2DecodeString(obj, mergeFrom, mergeFromDocs, ec, v, depth) (res, err)
 //@   decreases (- 1002 depth) 4
+//@   ensures (=> (not ((_ is VMap) obj)) (= err ErrInvalidType))                                           [C14]
 //@ func process2DecodeStringMap(obj, mergeFrom, mergeFromDocs, ec, v, depth) (res, err)
 //@   decreases (- 1002 depth) 3
 //@   property C04
 //@   at call process2#1
 //@     assert (=> (decShape (hd (ls decs))) (canon dec))                                                  [C04] [C14]
+//@   requires ((_ is VMap) obj)
+//@   ensures (=> (= (select (mc obj) "$value") VAbsent) (isErr err))                                       [C14]
+//@   ensures (=> (not ((_ is VStr) (select (mc obj) "$value"))) (isErr err))                               [C14]
+//@   ensures (=> (not (= (mlen (store (mc obj) "$value" VAbsent)) 0)) (isErr err))                         [C14]
+//@   ensures (=> (= (fmtByName v) 0) (isErr err))                                                          [C14]
+//@   ensures (=> (and ((_ is VStr) (select (mc obj) "$value")) (not (= (fmtByName v) 0))                   [C14]
+//@                    (not (= (llen (unmarshalV (fmtByName v) (sv (select (mc obj) "$value")))) 1))) (isErr err))
 //@ func process2List(obj, mergeFrom, mergeFromDocs, ec, depth) (res, err)
 //@   uses appNil, snocApp, escNoKey
 //@   ensures (=> (quiet obj (- depth 1)) (and (not (isErr err)) (= res (dropF obj))))    [C06]
@@ -698,8 +707,22 @@ package bkl
 //@ func process2EncodeAny(obj, mergeFrom, mergeFromDocs, v, depth) (res, err)
 //@   uses flagsApp
 //@   decreases (flagsIn v) (rank v) 1
+//@   ensures (= (isErr err) (encAnyE obj v))                                                              [C14]
+//@   ensures (=> (not (isErr err)) (= res (encAnyF obj v)))                                               [C14]
+//@   loop 1
+//@     invariant (= (encFoldE obj rest) (encFoldE obj@pre (ls v2)))
+//@     invariant (=> (not (encFoldE obj@pre (ls v2))) (= (encFoldF obj rest) (encFoldF obj@pre (ls v2))))
 //@ func process2EncodeString(obj, mergeFrom, mergeFromDocs, v, depth) (res, err)
 //@   decreases (flagsIn (VStr v)) 0 0
+//@   uses appNil, snocApp, appAssoc, prefixLsnoc, sappNil, ssnocApp
+//@   ensures (= (isErr err) (encStrE obj v))                                                              [C14]
+//@   ensures (=> (not (isErr err)) (= res (encStrF obj v)))                                               [C14]
+//@   loop 1
+//@     invariant ((_ is VList) ret)
+//@     invariant (= (app (ls ret) (flat1 rest)) (flat1 (ls obj2)))
+//@   loop 2
+//@     invariant ((_ is VList) ret)
+//@     invariant (= (app (ls ret) (prefixL prefix rest)) (prefixL prefix strs))
 
 //@ func popListMapValue(l, k) (val, rest, err)
 //@   uses appNil, snocApp
@@ -853,3 +876,50 @@ package bkl
 //@                  (and (strPathOK (heap Document.Data) (Document.Data doc) docs (sv m) VNil true)
 //@                       (= (isErr err) (= (select (mapOf (EvalContext.Vars ec)) (sv m)) VAbsent))
 //@                       (=> (not (isErr err)) (= res (select (mapOf (EvalContext.Vars ec)) (sv m)))))))
+
+// ------------------------------------------------------------------------------------------------- process2.go ($encode helpers, C14)
+
+//@ func toStringListPermissive(v) (res, err)
+//@   uses sappNil, ssnocApp
+//@   ensures (= (isErr err) (not ((_ is VList) v)))                                                          [C14]
+//@   ensures (=> (isErr err) (= err ErrInvalidType))
+//@   ensures (=> (not (isErr err)) (= res (fmtvL (ls v))))                                                   [C14]
+//@   loop 1
+//@     invariant (= (sapp ret (fmtvL rest)) (fmtvL (ls v2)))
+//
+//@ func process2ToListValue(k, delim, v) (res)
+//@   ensures (= (VStr res) (tolistVal k delim v))                                                            [C14]
+//
+//@ func process2ToListMap(obj, delim) (res, err)
+//@   uses appNil, snocApp, appAssoc
+//@   ensures (= (isErr err) (not ((_ is VMap) obj)))                                                         [C14]
+//@   ensures (=> (isErr err) (= err ErrInvalidType))
+//@   ensures (=> (not (isErr err)) (= res (VList (tolistMap obj delim))))                                    [C14]
+//@   loop 1
+//@     invariant ((_ is VList) ret)
+//@     invariant (= (app (ls ret) (tolistK (mc obj2) rest delim)) (tolistK (mc obj2) (sortedKeys (mc obj2)) delim))
+//@   loop 2
+//@     invariant ((_ is VList) ret)
+//@     invariant (= (app (ls ret) (tolistVals k delim rest)) (app (ls ret@loop) (tolistVals k delim (ls v2))))
+//
+//@ func process2ToListList(obj, delim) (res, err)
+//@   uses appNil, appAssoc
+//@   ensures (= (isErr err) (not (allMaps (ls obj))))                                                        [C14]
+//@   ensures (=> (not (isErr err)) (= res (VList (tolistL (ls obj) delim))))                                 [C14]
+//@   loop 1
+//@     invariant ((_ is VList) ret)
+//@     invariant (= (allMaps rest) (allMaps (ls obj)))
+//@     invariant (= (app (ls ret) (tolistL rest delim)) (tolistL (ls obj) delim))
+//
+//@ func process2ValuesMap(obj) (res, err)
+//@   uses appNil, snocApp
+//@   ensures (not (isErr err))
+//@   ensures (= res (VList (valuesK (mapOf obj) (sortedKeys (mapOf obj)))))                                  [C14]
+//@   loop 1
+//@     invariant ((_ is VList) vals)
+//@     invariant (= (app (ls vals) (valuesK (mapOf obj) rest)) (valuesK (mapOf obj) (sortedKeys (mapOf obj))))
+
+//@ func GetFormat(name) (res, err) trusted
+//@   ensures (= (isErr err) (= (fmtByName name) 0))
+//@   ensures (=> (isErr err) (= err ErrUnknownFormat))
+//@   ensures (=> (not (isErr err)) (= res (fmtByName name)))
